@@ -44,4 +44,73 @@ theorem eq_assert_exact (src : Source) (e : Entry) (h : HAttrs) (c : CmpImpl)
     funext v
     exact eqAssertedFields_doc v.fields
 
+/-! ### the emitted tokens
+
+`eqAsserted` is read off the structured impl; the theorems below tie it to what is *printed*: the body of the hidden
+function `_f` consists of exactly one checker block `{ fn _eq<T: ::core::cmp::Eq + ?Sized>(__this: &T) {} _eq(&(expr)) }`
+per asserted component — `expr` being the field or its `key` expression —, in declaration order, and of nothing else. -/
+
+/-- the expression a component is checked through -/
+def EqComponent.expr (k : SrcKind) : EqComponent → GToks
+  | .field f => thisOf k f
+  | .key f t => applyTemplate t (thisOf k f)
+
+theorem eq_body_tokens (k : SrcKind) (fs : List CmpField) :
+    cmpFieldsBody .eq k fs = (eqAssertedFields fs).flatMap fun c => eqChecker (c.expr k) := by
+  simp only [cmpFieldsBody]
+  induction fs with
+  | nil => rfl
+  | cons cf rest ih =>
+    simp only [List.flatMap_cons, eqAssertedFields, List.flatMap_append, ih]
+    congr 1
+    unfold eqExpr
+    cases cf.sel <;> simp [EqComponent.expr, List.flatMap_cons]
+
+theorem op_of_ok {t : CmpOp} {src : Source} {e : Entry} {h : HAttrs} {c : CmpImpl}
+    (hb : buildCmp t src e h = .ok c) : c.op = t := by
+  unfold buildCmp at hb
+  cases src with
+  | struct_ name g fields =>
+    simp only [bind, Except.bind, pure, Except.pure] at hb
+    split at hb
+    · simp at hb
+    · simp only [Except.ok.injEq] at hb
+      rw [← hb]
+  | enum_ name g variants =>
+    simp only [bind, Except.bind, pure, Except.pure] at hb
+    split at hb
+    · simp at hb
+    · simp only [Except.ok.injEq] at hb
+      rw [← hb]
+
+/-- a struct: the body of `_f` is the checker blocks of the documented components -/
+theorem eq_struct_tokens (name : String) (g : Generics) (fields : List FieldE) (e : Entry) (h : HAttrs) (c : CmpImpl)
+    (hb : buildCmp .eq (.struct_ name g fields) e h = .ok c) :
+    c.inner = (docEqComponentsOf fields).flatMap fun x => eqChecker (x.expr .struct_) := by
+  obtain ⟨_, hbody⟩ := body_of_ok hb
+  simp only [CmpImpl.inner, hbody, Source.docBody, op_of_ok hb, eq_body_tokens, docFieldsOut]
+  rw [← eqAssertedFields_doc]
+  rfl
+
+/-- an enum: one arm per variant, holding the checker blocks of that variant's documented components -/
+theorem eq_enum_tokens (name : String) (g : Generics) (variants : List VariantE) (e : Entry) (h : HAttrs) (c : CmpImpl)
+    (hb : buildCmp .eq (.enum_ name g variants) e h = .ok c) :
+    c.inner = "match" ::: "__this" ::: brace (
+        (variants.flatMap fun v => v.makePatWith "__this" [u c.name] +++ "=>" :::
+          brace ((docEqComponentsOf v.fields).flatMap fun x => eqChecker (x.expr .enum_))) +++
+        ["_", "=>", "{", "}"]) := by
+  obtain ⟨_, hbody⟩ := body_of_ok hb
+  simp only [CmpImpl.inner, hbody, Source.docBody, op_of_ok hb, List.flatMap_map, eq_body_tokens]
+  congr 3
+  simp only [eqAssertedFields_doc]
+
+/-- the checker demands `Eq` of the type of the expression it is given, and nothing else: its only bound is
+`T: ::core::cmp::Eq + ?Sized` -/
+theorem eqChecker_shape (e : GToks) :
+    (eqChecker e).strs =
+      ["{", "fn", "_eq", "<", "T", ":", "::", "core", "::", "cmp", "::", "Eq", "+", "?", "::", "core", "::", "marker", "::", "Sized", ">",
+       "(", "__this", ":", "&", "T", ")", "{", "}", "_eq", "(", "&", "("] ++ e.strs ++ [")", ")", "}"] := by
+  simp [eqChecker, brace, paren, absPath, GToks.strs, GTok.strs, gapp, gcons, OfStr.ofStr, List.flatMap_append,
+    List.flatMap_cons]
+
 end DX
